@@ -6,6 +6,10 @@ CONSTANTS
   AtomicSlot = TRUE
   Paths = {p1, p2}
   OncePerPath = FALSE
+  FirstOnly = FALSE
+  WriterIsMover = TRUE
+  MaxGen = 4
+  AppendFirst = FALSE
 INVARIANT NoLostBackup
 INVARIANT SlotsDistinct
 INVARIANT RestoreGivesOldest
